@@ -99,7 +99,7 @@ func (c *scriptCard) Transceive(cla, ins, p1, p2 int, data []byte, le int, raw [
 }
 
 type sscMode struct {
-	Mode string `json:"mode"` // zero | random | nearwrap
+	Mode string `json:"mode"` // zero | random | nearwrap | carry
 	K    int    `json:"k,omitempty"`
 }
 
@@ -108,6 +108,21 @@ func initSSC(m sscMode, n int, rng *core.Rng) []byte {
 	switch m.Mode {
 	case "random":
 		copy(s, rng.Bytes(n))
+	case "carry":
+		// random high part over a run of FF octets: the increments of the run carry across a byte, 32-bit or 64-bit
+		// boundary INSIDE the counter (same draws as "random", so the rest of the case's stream is unchanged)
+		copy(s, rng.Bytes(n))
+		j := []int{1, 2, 3, 4, 7, 8, 8, 8}[int(s[0])%8]
+		if j >= n {
+			j = n - 1
+		}
+		for i := n - j; i < n; i++ {
+			s[i] = 0xFF
+		}
+		s[n-1] -= s[1] % 4
+		if s[n-j-1] == 0xFF {
+			s[n-j-1] = 0x7F
+		}
 	case "nearwrap":
 		for i := range s {
 			s[i] = 0xFF
@@ -149,6 +164,8 @@ func genSSCMode(rng *core.Rng) sscMode {
 		return sscMode{Mode: "zero"}
 	case 1:
 		return sscMode{Mode: "nearwrap", K: rng.Intn(8)}
+	case 2:
+		return sscMode{Mode: "carry"}
 	}
 	return sscMode{Mode: "random"}
 }
@@ -375,6 +392,33 @@ func (SMRespEngine) Run(prop string, ci any) *core.Outcome {
 		case "wrong_ssc_rewrap":
 			// the right keys and the right content, but authenticated under another counter value
 			o := cs.Clone()
+			if (c.A/3)%2 == 1 && (c.SSC.Mode == "carry" || c.SSC.Mode == "nearwrap") {
+				// the counter a terminal arrives at when a carry is lost at a 1/2/4/8-byte boundary inside the counter:
+				// low part of the right value, high part zeroed or left as it was two increments ago
+				right := bytes.Clone(cs.SSC)
+				prev := bytes.Clone(cs.SSC)
+				dec(prev)
+				dec(prev)
+				j := []int{1, 2, 4, 8}[(c.A/6)%4]
+				if j >= len(right) {
+					j = len(right) / 2
+				}
+				x := bytes.Clone(right)
+				for i := 0; i < len(x)-j; i++ {
+					if (c.A/24)%2 == 0 {
+						x[i] = 0
+					} else {
+						x[i] = prev[i]
+					}
+				}
+				if bytes.Equal(x, right) {
+					return genuine
+				}
+				copy(o.SSC, x)
+				dec(o.SSC)
+				forged = o.Wrap(0xB0, script[k].data, script[k].sw)
+				break
+			}
 			d := 1 + c.A%3
 			for i := 0; i < d+1; i++ {
 				dec(o.SSC)
@@ -524,7 +568,28 @@ func (SMRespEngine) Run(prop string, ci any) *core.Outcome {
 			}
 			outer := g[len(g)-2:]
 			var extra []byte
-			switch c.A % 7 {
+			var donorTLV chip.TLV
+			if donor != nil {
+				if dt, err := chip.ParseTLVs(donor); err == nil && len(dt) == 1 {
+					donorTLV = dt[0]
+				}
+			}
+			switch c.A % 9 {
+			case 7, 8:
+				// the cryptogram of an earlier genuine response under the OTHER cryptogram tag (87 <-> 85), with and
+				// without the padding-content indicator: decrypts and unpads, but is not what the chip authenticated now
+				if donor == nil || len(donorTLV.Val) < 2 {
+					return genuine
+				}
+				other := 0x85
+				if donorTLV.Tag == 0x85 {
+					other = 0x87
+				}
+				v := donorTLV.Val
+				if c.A%9 == 8 && v[0] == 0x01 && (len(v)-1)%8 == 0 {
+					v = v[1:]
+				}
+				extra = chip.EncTLV(other, v)
 			case 0:
 				if donor == nil {
 					return genuine
@@ -548,7 +613,7 @@ func (SMRespEngine) Run(prop string, ci any) *core.Outcome {
 			case 6:
 				extra = chip.EncTLV(0x81, attackRng.Bytes(1+c.B%20))
 			}
-			pos := (c.A / 7) % 3 // 0 after everything, 1 in front, 2 just before the MAC object
+			pos := (c.A / 9) % 3 // 0 after everything, 1 in front, 2 just before the MAC object
 			for i, t := range ts {
 				if pos == 1 && i == 0 {
 					forged = append(forged, extra...)
@@ -848,8 +913,36 @@ func (SMCmdEngine) Run(prop string, ci any) *core.Outcome {
 	}
 	afterReject := false
 	cases := map[string]bool{}
+	// a quarter of the runs send the pieces of one long message (derived from the case seed: no extra draw)
+	chunked := c.Seed%4 == 1
+	var arena, arenaRef, specIntended []byte
+	cur := 0
+	if chunked {
+		arenaRef = core.NewRng(core.SubSeed(c.Seed, "arena")).Bytes(1 << 17)
+		arena = bytes.Clone(arenaRef)
+	}
 	for k := 0; k < c.N; k++ {
 		spec := genCmd(rng, c.Profile, k == bigAt)
+		if chunked && len(spec.data) > 0 {
+			// the caller sends consecutive pieces of one long message: each data field is a sub-slice of the same
+			// buffer (spare capacity behind it holds the NEXT piece); the intended command is taken from the pristine copy
+			if cur+len(spec.data) > len(arena) {
+				arena, cur = bytes.Clone(arenaRef), 0
+			}
+			intended := arenaRef[cur : cur+len(spec.data)]
+			spec.data = arena[cur : cur+len(spec.data)]
+			cur += len(spec.data)
+			defer func(got, want []byte, k int) {
+				if !bytes.Equal(got, want) && len(out.Violations) == 0 {
+					out.Violate("C10", "caller-data-modified", c.Suite, "exchange %d: the caller's command data field was modified by the library", k)
+				}
+			}(spec.data, intended, k)
+			spec.data = spec.data[:len(spec.data):cap(spec.data)]
+			specIntended = intended
+			out.Probe("chunked_message_from_one_buffer")
+		} else {
+			specIntended = spec.data
+		}
 		sigBase := fmt.Sprintf("%s", c.Suite)
 		before := card.n
 		// plain class byte: mostly 00, sometimes command chaining (10), a logical channel (01) or proprietary (80)
@@ -915,7 +1008,7 @@ func (SMCmdEngine) Run(prop string, ci any) *core.Outcome {
 			out.Violate("C10", "outer-le", sigBase, "exchange %d: protected command Le must be 00 / 0000 (got HasLe=%v Le=%d)", k, outer.HasLe, outer.Le)
 			break
 		}
-		if p.INS != spec.ins || p.P1 != spec.p1 || p.P2 != spec.p2 || !bytes.Equal(p.Data, spec.data) {
+		if p.INS != spec.ins || p.P1 != spec.p1 || p.P2 != spec.p2 || !bytes.Equal(p.Data, specIntended) {
 			out.Violate("C10", "decrypts-to-other-command", sigBase, "exchange %d: chip decrypted header %02X%02X%02X data %d bytes, intended %02X%02X%02X data %d bytes", k, p.INS, p.P1, p.P2, len(p.Data), spec.ins, spec.p1, spec.p2, len(spec.data))
 			break
 		}
